@@ -362,6 +362,8 @@ def dict_atomic(ctx, P, rule="DICT-ATOMIC", floor=8):
 def py_lints(ctx, py, mods, only=None):
     """the Python kind / width lints on one property's functions (called next to lib_py.unused_params with the same scope)"""
     from . import lib_py
+    if getattr(ctx, "tier", "quick") == "thorough" and only is not None:
+        only = _py_closure(py, mods, only)
     py_minmax_kind(ctx, py, mods, only=only)
     span_kind(ctx, None, py, None, py_mods=mods, py_only=only, tus=[])
     lib_py.py_width(ctx, py, mods, only=only)
@@ -899,3 +901,27 @@ def clear_domain(ctx, P, scope, rule="CLEAR-DOMAIN", tus=None):
                        "%s is reset over %s but allocated over %s" % (name, " x ".join(got), " / ".join(" x ".join(a) for a in allocs[(key, name)])))
                 k += 1
     return n
+
+
+def _py_closure(py, mods, only):
+    """functions selected by `only` plus the functions of the same modules they (transitively) call, matched by name
+    (`self.x()`, `obj.x()`, `x()`): an over-approximation of the call graph, used by the thorough tier only"""
+    by_name = {}
+    for mn in mods:
+        for qn in py.mod(mn).funcs:
+            by_name.setdefault(qn.split(".")[-1], []).append((mn, qn))
+    seen = set()
+    todo = [(mn, qn) for mn in mods for qn in py.mod(mn).funcs if only(mn, qn)]
+    while todo:
+        mn, qn = todo.pop()
+        if (mn, qn) in seen:
+            continue
+        seen.add((mn, qn))
+        fn = py.mod(mn).funcs[qn]
+        for c in ast.walk(fn):
+            if isinstance(c, ast.Call):
+                nm = c.func.attr if isinstance(c.func, ast.Attribute) else c.func.id if isinstance(c.func, ast.Name) else None
+                for tgt in by_name.get(nm, []):
+                    if tgt not in seen:
+                        todo.append(tgt)
+    return lambda mn, qn: (mn, qn) in seen
